@@ -358,7 +358,9 @@ func c17Interpolate(r *engine.Run, ls geom.LineString) {
 // ---- SnapToGrid --------------------------------------------------------------------
 
 func c17Snap(r *engine.Run) {
-	ords := []float64{0, 0.5, 1, 1.5, 2.5, 123.456, 1e15, 1e300, 5e-324, 9007199254740992, 0.15, 1e-7, 33333.333333333336, 4503599627370497.5}
+	// the second row holds exact rounding ties at other grids than 1 (half a step of 10, 100, 1000, 0.1, 0.01)
+	ords := []float64{0, 0.5, 1, 1.5, 2.5, 123.456, 1e15, 1e300, 5e-324, 9007199254740992, 0.15, 1e-7, 33333.333333333336, 4503599627370497.5,
+		5, 15, 25, 150, 4500, 0.25, 0.125, 0.375}
 	n := 0
 	for dp := -320; dp <= 320; dp++ {
 		for _, a := range ords {
@@ -522,6 +524,34 @@ func c17Main(r *engine.Run) {
 				lines = append(lines, lineItem{geom.NewLineString(geom.NewSequence(im, geom.DimXY)), fmt.Sprintf("float image at scale %g", sc)})
 			}
 		}
+	}
+	// long lines (8..12 segments of unequal lengths, turning at every vertex): evenly spaced samples
+	// skip whole segments, land on vertices, and walk around a ring more than once
+	{
+		mkLine := func(lens []int) []universe.LPt {
+			p := universe.LPt{}
+			out := []universe.LPt{p}
+			for i, l := range lens {
+				switch i % 4 {
+				case 0:
+					p.X += l
+				case 1:
+					p.Y += l
+				case 2:
+					p.X += l
+				default:
+					p.Y -= l
+				}
+				out = append(out, p)
+			}
+			return out
+		}
+		for _, lens := range [][]int{{1, 1, 1, 1, 1, 1, 1, 1}, {3, 1, 1, 4, 1, 2, 1, 1}, {1, 5, 1, 1, 1, 1, 7, 1, 1, 2}, {2, 1, 2, 1, 2, 1, 2, 1, 2, 1, 2, 1}, {9, 1, 1, 1, 1, 1, 1, 1, 1}} {
+			pts := mkLine(lens)
+			lines = append(lines, lineItem{id.Line(pts), "long line"}, lineItem{id.Line(rotateRing(append(append([]universe.LPt{}, pts...), pts[0]), 0, true)[:len(pts)]), "long line reversed"})
+		}
+		lap := []universe.LPt{{0, 0}, {3, 0}, {3, 1}, {0, 1}, {0, 0}, {3, 0}, {3, 1}, {0, 1}, {0, 0}}
+		lines = append(lines, lineItem{id.Line(lap), "two laps of a rectangle"})
 	}
 	r.States.Add(int64(len(lines)))
 	if r.Parallel(len(lines), func(i int) {
